@@ -16,7 +16,10 @@ TOOLS = ["colander", "combine", "chef", "mandoline", "whip", "marinate", "chk2pl
 RULE = ("case = tool in {colander, combine, chef(user recipe), mandoline(array/plotfile), whip, marinate, chk2plt, "
         "taste, menu, minuterie, pestle} x invocation form (API/CLI, explicit rel/abs or default output, input given "
         "abs/rel/with trailing slash or as '.' from inside it, cwd = work dir or the input's parent) x arm in {clean, unknown field, "
-        "unreadable input (read-open fault on Header / a level header / a binary), write faults}. Write-fault arm: a "
+        "unreadable input (Header / a level header / a binary: EIO or EACCES at open, or EIO part-way through the file - "
+        "first byte, after the first line, middle, last byte, at/inside the header of a later FAB; np.fromfile then returns "
+        "the short array fread yields), write faults, rerun (the request once more over its own output; for colander "
+        "after another selection; or after the same request in another run directory under FORK pools)}. Write-fault arm: a "
         "fault-free pilot run numbers every open-for-write/write/close/mkdir site of the run (parent and pool "
         "workers, same seeded schedule), then each site is hit once per applicable kind (EACCES/ENOSPC/EMFILE at "
         "open, EIO/ENOSPC/torn prefix/short count at write, EIO at close, ENOSPC/EACCES at mkdir; transient or sticky) up to the "
@@ -28,7 +31,8 @@ RULE = ("case = tool in {colander, combine, chef(user recipe), mandoline(array/p
         "inside the operation, or a default/trailing-slash invocation form; distinct = hash(tool, options, form, arm, site, kind)")
 ASSUMPTIONS = ["write-effects are observed through sys.addaudithook and builtins.open/io.open/os.mkdir proxies; "
                "C-level writes that bypass both (none known in the tools) would be missed",
-               "read-side EIO in the middle of a file is not injected (np.fromfile needs a real file)"]
+               "part-way read faults are placed by byte position in one drawn input file; reads the tools do "
+               "through np.fromfile are intercepted in the np proxy of the package (other C-level readers would bypass it)"]
 
 
 class ConstSource(ChoiceSource):
